@@ -346,7 +346,9 @@ pub(crate) async fn process_inproc_binding_request_event(
   if let Err(e) = validate_socket_compatibility(request.connector_socket_type, binder_socket_type) {
     tracing::warn!(binder_handle = binder_core_handle, %connector_uri, "Inproc socket type mismatch: {}", e);
     let _ = request.reply_tx.send(Err(e.clone()));
-    return Err(e);
+    // Refusing an incompatible connector is that connector's failure, not the binder's:
+    // returning the error here made the binder's command loop shut the whole socket down.
+    return Ok(());
   }
 
   // Channel on which the binder receives frames from the connector.
